@@ -229,10 +229,53 @@ def check_c07(pid, tier, seed, res, work):
     return stats, samples
 
 
+def slow_java(k, reps=9000):
+    """a file whose PARSE takes many seconds (a class cut off inside a comment full of `/*`: tree-sitter's error
+    recovery is quadratic there)"""
+    return ('public class S%d {\n  void before() { int q = %d + 2; }\n  /* ' % (k, k) + '/* x ' * reps + '\n').encode()
+
+
+def slow_context_c08(res, work, stats, seed):
+    """thorough tier: five slow-to-parse files walked BEFORE the ordinary files (one per worker), so every worker
+    handles an ordinary file right after a slow one; what is reported for the ordinary files must not change"""
+    files = []
+    for i in range(6):
+        text, _, _ = javagen.gen_unit(seed + 4100, i, size=0.5)
+        files.append(('src/T%d.java' % i, text.encode()))
+    base, var = work + '/slow_alone', work + '/slow_ctx'
+    qrun.write_project(base, files)
+    qrun.write_project(var, files + [('0slow/S%d.java' % k, slow_java(k)) for k in range(5)])
+    outs = {}
+    for name, d in (('alone', base), ('context', var)):
+        o = '%s/slowdump_%s.txt' % (work, name)
+        rc, so, se = run([B + '/harness', 'init-dump', d, o], timeout=1200, env=dict(ENV, HOME=work))
+        if rc != 0:
+            res.violations.append(dict(property='C08', what='the scan of a project with slow-to-parse files ended abnormally (rc %d)' % rc, detail=se.decode(errors='replace')[-400:],
+                                       project='six generated files plus 0slow/S0..S4.java = "public class Sk { void before() {...} /* " + "/* x " * 9000',
+                                       how='graph.Initialize on the directory'))
+            return
+        outs[name] = [l.rstrip('\n') for l in open(o)]
+    def proj(lines, root):
+        out = []
+        for l in lines:
+            if l.startswith('NODE ') and ('file=x' + (root + '/src/').encode().hex()) in l:
+                out.append(re.sub(r'^NODE id=[0-9a-f]+ ', 'NODE ', l).replace(root.encode().hex(), 'ROOT'))
+        return sorted(out)
+    a, b = proj(outs['alone'], base), proj(outs['context'], var)
+    stats['slow_context_entities'] = len(a)
+    if a != b:
+        res.violations.append(dict(property='C08', what='what is reported for ordinary files changes when slow-to-parse files are scanned before them', alone=len(a), with_context=len(b),
+                                   only_alone=[l for l in a if l not in set(b)][:1], only_context=[l for l in b if l not in set(a)][:1],
+                                   project=[(p_, d_.decode('utf-8', 'replace')) for p_, d_ in files], context='0slow/S0..S4.java = "public class Sk { void before() {...} /* " + "/* x " * 9000',
+                                   how='graph.Initialize on the directory with and without the slow files'))
+
+
 def check_c08(pid, tier, seed, res, work):
     rng = random.Random('c08/%d' % seed)
     stats = Counter()
     samples = []
+    if tier == 'thorough':
+        slow_context_c08(res, work, stats, seed)
     n = 25 if tier == 'quick' else 300
     for i in range(n):
         text, _, _ = javagen.gen_unit(seed + 1300, i, size=0.6)
